@@ -61,6 +61,12 @@ def run(prop, tier, seed):
                     groups.append([["-lN" + short, v], ["-l", "-N", "-" + short + v]])
                 # operands before / after
                 groups.append([["f"] + base[0], base[0] + ["f"], ["f"] + base[-1]])
+                # both operands, the option in front of them, between them and behind them
+                # (the second operand and -i name the same thing, the later one wins: not for --input)
+                if name != "--input":
+                    groups.append([base[0] + ["f", "p"], ["f", "p"] + base[0], ["f"] + base[0] + ["p"], base[-1] + ["f", "p"]])
+                else:
+                    groups.append([base[0] + ["f", "p"], base[-1] + ["f", "p"], base[0] + ["--", "f", "p"]])
             bad_lines.append([name])                 # missing argument
             if short:
                 bad_lines.append(["-" + short])
@@ -75,8 +81,14 @@ def run(prop, tier, seed):
         for a in ambiguous:
             bad_lines.append([a] + (["v"] if has_arg else []))
     bad_lines += [["-p", ""], ["--strip="], ["--strip", ""], ["-F", ""], ["--fuzz="], ["--fuzz", ""], ["-p", "-"], ["-F", "+"], ["-p", "1.5"], ["-F", "0x"],
-                  ["--no-such-option"], ["-y"], ["-p", "x"], ["-F", "1x"], ["-p"], ["a", "b", "c"], ["--strip=one"], ["-pq"], ["--", "a", "b", "c"], ["-\x83"], ["-N\x85"]]
+                  ["--no-such-option"], ["-y"], ["-p", "x"], ["-F", "1x"], ["-p"], ["a", "b", "c"], ["--strip=one"], ["-pq"], ["--", "a", "b", "c"], ["-\x83"], ["-N\x85"],
+                  # an operand is an operand whatever it is spelled like: the empty string, "--" after the terminator
+                  ["", "a", "b"], ["a", "", "b"], ["a", "b", ""], ["--", "", "a", "b"], ["", "", ""], ["--", "--", "a", "b"], ["--", "a", "--", "b"], ["a", "--", "b", "--"],
+                  ["-i", "x", "a", "b", "c"], ["a", "b", "c", "-i", "x"]]
     groups.append([["--", "-x", "-y"], ["--", "-x", "-y"]])
+    groups.append([["--", "--", "x"], ["-N", "--", "--", "x"][1:], ["--", "--", "x"]])
+    groups.append([["a", "--", "--"], ["--", "a", "--"]])
+    groups.append([["", "b"], ["--", "", "b"]])
     groups.append([["--input=fix=1.patch"], ["-i", "fix=1.patch"], ["-ifix=1.patch"], ["--input", "fix=1.patch"], ["--inp=fix=1.patch"]])
     # environment
     groups.append([["--posix"], ["--posix"]])
